@@ -214,7 +214,8 @@ func miscOpAt(c *Compiler) wasm.OpcodeMisc {
 //@ prop C02
 // The bulk memory / table instructions (0xFC prefix): every bounds check helper is called with
 // zero-extended 32-bit operands (the requires of boundsCheckInMemory / boundsCheckInTable, checked at
-// each call site in every arm of the misc switch).
+// each call site), and each bulk instruction emits its one or two bounds checks (one case per instruction,
+// the sub-opcode pinned by the precondition and by the proved single-byte clause of leb128.LoadUint32).
 // (block bookkeeping of the builder: assumed to insert no instruction and to leave the ghost registers alone)
 //@ iface (b ssa.Builder) SetCurrentBlock(bb ssa.BasicBlock)
 //@   modifies nothing
@@ -225,13 +226,44 @@ func miscOpAt(c *Compiler) wasm.OpcodeMisc {
 //@ iface (bb ssa.BasicBlock) AddParam(b ssa.Builder, t ssa.Type) ssa.Value
 //@   modifies nothing
 
-//@ case misc (c *Compiler) lowerCurrentOpcode()
-//@   requires c.ssaBuilder != nil && c.loweringState.pc >= 0 && c.loweringState.pc < len(c.wasmFunctionBody) && c.wasmFunctionBody[c.loweringState.pc] == wasm.OpcodeMiscPrefix
-//@   requires !c.loweringState.unreachable && len(c.loweringState.values) >= 3 && c.loweringState.pc+1 < len(c.wasmFunctionBody) && oobChecks() >= 0 && oobChecks() < 1<<40
-//@   ensures[memory.copy-checks-both-regions] old(miscOpAt(c)) == wasm.OpcodeMiscMemoryCopy ==> oobChecks() == old(oobChecks())+2
-//@   ensures[memory.fill-checks-the-region] old(miscOpAt(c)) == wasm.OpcodeMiscMemoryFill ==> oobChecks() == old(oobChecks())+1
-//@   ensures[memory.init-checks-both-regions] old(miscOpAt(c)) == wasm.OpcodeMiscMemoryInit ==> oobChecks() == old(oobChecks())+2
-//@   ensures[table.copy-checks-both-regions] old(miscOpAt(c)) == wasm.OpcodeMiscTableCopy ==> oobChecks() == old(oobChecks())+2
-//@   ensures[table.fill-checks-the-region] old(miscOpAt(c)) == wasm.OpcodeMiscTableFill ==> oobChecks() == old(oobChecks())+1
-//@   ensures[table.init-checks-both-regions] old(miscOpAt(c)) == wasm.OpcodeMiscTableInit ==> oobChecks() == old(oobChecks())+2
+//@ case bulk:memory.copy (c *Compiler) lowerCurrentOpcode()
+//@   requires c.ssaBuilder != nil && c.loweringState.pc >= 0 && c.loweringState.pc+1 < len(c.wasmFunctionBody) && c.wasmFunctionBody[c.loweringState.pc] == wasm.OpcodeMiscPrefix && miscOpAt(c) == wasm.OpcodeMiscMemoryCopy
+//@   requires !c.loweringState.unreachable && len(c.loweringState.values) >= 3 && oobChecks() >= 0 && oobChecks() < 1<<40
+//@   ensures[checks-both-regions] oobChecks() == old(oobChecks())+2
 //@   nosafety keep-pre
+//@   decide-branches
+
+//@ case bulk:memory.fill (c *Compiler) lowerCurrentOpcode()
+//@   requires c.ssaBuilder != nil && c.loweringState.pc >= 0 && c.loweringState.pc+1 < len(c.wasmFunctionBody) && c.wasmFunctionBody[c.loweringState.pc] == wasm.OpcodeMiscPrefix && miscOpAt(c) == wasm.OpcodeMiscMemoryFill
+//@   requires !c.loweringState.unreachable && len(c.loweringState.values) >= 3 && oobChecks() >= 0 && oobChecks() < 1<<40
+//@   ensures[checks-the-region] oobChecks() == old(oobChecks())+1
+//@   nosafety keep-pre
+//@   decide-branches
+
+//@ case bulk:memory.init (c *Compiler) lowerCurrentOpcode()
+//@   requires c.ssaBuilder != nil && c.loweringState.pc >= 0 && c.loweringState.pc+1 < len(c.wasmFunctionBody) && c.wasmFunctionBody[c.loweringState.pc] == wasm.OpcodeMiscPrefix && miscOpAt(c) == wasm.OpcodeMiscMemoryInit
+//@   requires !c.loweringState.unreachable && len(c.loweringState.values) >= 3 && oobChecks() >= 0 && oobChecks() < 1<<40
+//@   ensures[checks-both-regions] oobChecks() == old(oobChecks())+2
+//@   nosafety keep-pre
+//@   decide-branches
+
+//@ case bulk:table.copy (c *Compiler) lowerCurrentOpcode()
+//@   requires c.ssaBuilder != nil && c.loweringState.pc >= 0 && c.loweringState.pc+1 < len(c.wasmFunctionBody) && c.wasmFunctionBody[c.loweringState.pc] == wasm.OpcodeMiscPrefix && miscOpAt(c) == wasm.OpcodeMiscTableCopy
+//@   requires !c.loweringState.unreachable && len(c.loweringState.values) >= 3 && oobChecks() >= 0 && oobChecks() < 1<<40
+//@   ensures[checks-both-regions] oobChecks() == old(oobChecks())+2
+//@   nosafety keep-pre
+//@   decide-branches
+
+//@ case bulk:table.fill (c *Compiler) lowerCurrentOpcode()
+//@   requires c.ssaBuilder != nil && c.loweringState.pc >= 0 && c.loweringState.pc+1 < len(c.wasmFunctionBody) && c.wasmFunctionBody[c.loweringState.pc] == wasm.OpcodeMiscPrefix && miscOpAt(c) == wasm.OpcodeMiscTableFill
+//@   requires !c.loweringState.unreachable && len(c.loweringState.values) >= 3 && oobChecks() >= 0 && oobChecks() < 1<<40
+//@   ensures[checks-the-region] oobChecks() == old(oobChecks())+1
+//@   nosafety keep-pre
+//@   decide-branches
+
+//@ case bulk:table.init (c *Compiler) lowerCurrentOpcode()
+//@   requires c.ssaBuilder != nil && c.loweringState.pc >= 0 && c.loweringState.pc+1 < len(c.wasmFunctionBody) && c.wasmFunctionBody[c.loweringState.pc] == wasm.OpcodeMiscPrefix && miscOpAt(c) == wasm.OpcodeMiscTableInit
+//@   requires !c.loweringState.unreachable && len(c.loweringState.values) >= 3 && oobChecks() >= 0 && oobChecks() < 1<<40
+//@   ensures[checks-both-regions] oobChecks() == old(oobChecks())+2
+//@   nosafety keep-pre
+//@   decide-branches
